@@ -358,9 +358,10 @@ def step (fs : List String) : String :=
     let ps : List GE.Mix.Piece := (if pieces.isEmpty then [] else pieces.splitOn "\x01").filterMap fun x =>
       match chars x with
       | 'T' :: r => some (.text r)
+      | 'L' :: r => some (.text r)
       | 'B' :: r => some (.bind r)
       | _ => none
-    esc (str (GE.Mix.printPieces ps))
+    esc (str (GE.Mix.printValue (pieces.startsWith "L") (fun s => chars (GE.Gen.jsLitStr (str s))) ps))
   | ["positions", src, steps] =>
     let utf8 (c : Char) : Nat := if c.toNat < 0x80 then 1 else if c.toNat < 0x800 then 2 else if c.toNat < 0x10000 then 3 else 4
     let rec takeBytes (n : Nat) (acc : List Char) : List Char → List Char × List Char
